@@ -1,9 +1,11 @@
 // C02: collection sugar evaluates like its documented expansion.
 // One generated XGo package per run: many scenario functions compiled by the REAL compiler, plus
 // the generator's own documented Go expansion of each (plain Go, same binary).  Per scenario:
-//   case line  mini <sexpr> <seed>:<index>     (the Lean driver evaluates lower p and p)
-//   impl       the probe trace/outcome of the compiler's output
-//   oracle     compiler's output vs documented expansion
+//
+//	case line  mini <sexpr> <seed>:<index>     (the Lean driver evaluates lower p and p)
+//	impl       the probe trace/outcome of the compiler's output
+//	oracle     compiler's output vs documented expansion
+//
 // plus the structural tie lines  minigo <sexpr>  (normalised Go text of the compiler's output).
 package main
 
